@@ -18,6 +18,11 @@ RULES = {
     "zz": ("(('prim', 'zz'), ('prim', 0))", "V('falsy')", []),       # never exists: untested
     "acL_gt": ("(('prim', 'a'), ('prim', 'c'), ('list', NULL))", "V('greater_than', t1)", [("t1", "int")]),
     "L_x": ("(('list', NULL),)", "V('truthy')", []),                # on a mapping root: selects nothing
+    "l1f": ("(('prim', 'l'), ('prim', 1.0))", "V('falsy')", []),     # a float part never matches a list index
+    "l1i": ("(('prim', 'l'), ('prim', 1))", "V('is_instance', str)", []),
+    "l1ib": ("(('prim', 'l'), ('prim', 1), ('prim', 'b'))", "V('greater_than', t1)", [("t1", "int")]),
+    "l0f": ("(('prim', 'l'), ('prim', 0.0))", "V('truthy')", []),
+    "l0i": ("(('prim', 'l'), ('prim', 0))", "V('equal_to', e1)", [("e1", "int")]),
 }
 
 
@@ -85,12 +90,41 @@ QUICK = [
     [], ["M_dict"], ["ab_gt"], ["zz"], ["ab_gt", "M_dict"], ["ab_gt", "lL_eq"], ["ab_gt", "ab_str"], ["root_keys", "aci"],
     ["ab_gt", "M_dict", "lL_eq"], ["root_keys", "aci", "ab_str"], ["lL_eq", "ab_gt", "zz"], ["X_len", "root_keys"],
     ["acL_gt", "ab_str", "L_x"], ["M_truthy", "X_len"], ["M_dict", "ab_gt", "zz"], ["zz", "L_x"], ["aci", "acL_gt"],
+    ["l1f", "l1i"], ["l1f", "l1ib", "zz"], ["l0f", "l0i", "l1i"],
 ]
+
+
+def reuse_case(cid, first_doc, second_doc, edit, L):
+    """the same Schema object (and its rule objects) validated twice: the second verdict is the reference's"""
+    body = f"""
+TERMS = [((('prim', 'a'),), leaf('value', 'dtype', 'equal_to', int)), ((('prim', 'b'), ('prim', 'c')), V('is_instance', bool)),
+         ((('prim', 'xs'), ('list', NULL)), leaf('value', 'dtype', 'in_', [int, str]))]
+rules = [Rule(build_path(pt), build_cond(ct)) for pt, ct in TERMS]
+sch = Schema(rules)
+def expected(doc):
+    refs = [ref_rule(pt, ct, doc) for pt, ct in TERMS]
+    return (all(r[0] for r in refs), sum(len(r[2]) for r in refs), sum(1 for r in refs if r[1]), sorted(tx(cp) for r in refs for _, cp in r[2]))
+def observed(v):
+    return (v.is_valid, v.num_failures, v.num_rules_tested, sorted(tx(tuple(f.path)) for rt in v.rule_tests for f in rt.failures))
+d1 = {first_doc}
+ok = same('first validation', observed(sch.validate(d1)), expected(d1))
+{edit}
+d2 = {second_doc}
+ok = ok and same('second validation with the same schema object', observed(sch.validate(d2)), expected(d2))
+ok = ok and same('... and with the same rule objects in another schema, another order', observed(Schema(list(reversed(rules))).validate(d2)), expected(d2))
+ok = ok and same('first document again', observed(sch.validate({first_doc})), expected({first_doc}))
+return ok
+"""
+    return mk_case(f"c06.reuse.{cid}", [("u1", "Union[int, bool, None]"), ("u2", "int")], body, pre=[f"BU({L}, u1, u2)"], stubs=["sym_repr"])
 
 
 def cases(ctx):
     L = 2 if ctx.quick else 3
     out = []
+    out.append(reuse_case("type_twins", "{'a': 1, 'b': {'c': True}, 'xs': [1, u2, 0]}", "{'a': True, 'b': {'c': 1}, 'xs': [1.0, u2, False]}", "", L))
+    out.append(reuse_case("type_twins.rev", "{'a': True, 'b': {'c': 0}, 'xs': [u1, 2.0]}", "{'a': 1.0, 'b': {'c': False}, 'xs': [u1, 2]}", "", L))
+    out.append(reuse_case("edited_in_place", "{'a': 1, 'b': {'c': True}, 'xs': [u1, 2]}", "d1", "d1['b']['c'] = u2\nd1['xs'].append(None)", L))
+    out.append(reuse_case("removed_in_place", "{'a': u1, 'b': {'c': 0}, 'xs': [1, 'x']}", "d1", "del d1['b']['c']\nd1['xs'][0] = 1.5", L))
     for names in QUICK:
         out.append(schema_case(names, "dm", L))
     if not ctx.quick:
